@@ -216,6 +216,15 @@ def oracle(method, out, E, freq, dirs, wclean, mask, mask_amb, wscut, req, tol, 
     return fails, amb, ws_amb
 
 
+def basin_hs_ties(E, w, freq, dirs):
+    """True when two detected basins have Hs equal to within float32 summation noise."""
+    from wavespectra.core import npstats
+
+    ks = [k for k in range(1, int(np.max(w)) + 1)]
+    hs = sorted(float(npstats.hs(np.where(w == k, E, 0.0), freq, dirs)) for k in ks)
+    return any(b - a <= 2e-6 * max(b, 1e-300) for a, b in zip(hs, hs[1:]))
+
+
 def same_parts(a, b, heads, tol):
     """Same partitions up to the order of the swells (which the Hs clause constrains separately)."""
     a = np.asarray(a, dtype=float)
@@ -472,7 +481,9 @@ def make_np_case(inp):
             else:
                 # layout independence: same labelled values => same partitions (swells as a multiset)
                 same = base_out is not None and same_parts(res, base_out, HEADS[method], tol)
-                if base_out is not None and ws_amb:
+                if base_out is not None and (ws_amb or (not same and basin_hs_ties(Ev, wclean, freq, dirs))):
+                    # near-equal Hs of two basins: the sort order (and which ones survive truncation) may legitimately
+                    # depend on the summation order of the layout
                     amb += 1
                 elif base_out is not None and not same:
                     ofails.append(dict(clause="layout", what=f"{NAMES[method]} on a {lname} array differs from the result on the "
